@@ -310,9 +310,10 @@ func ruleINV1(c *Ctx) {
 			// F.M["k"] vs F.M[F.Key]), and those nodes are indexed under their own spelling only. What is indexed under
 			// the container covers all of them, so a successful element write must also invalidate the container variable.
 			cn := calleeName(ci)
-			if !(strings.HasSuffix(cn, "SetArrayValueAt") || strings.HasSuffix(cn, "SetMapValueAt")) || recv == nil {
+			if !(strings.HasSuffix(cn, "SetArrayValueAt") || strings.HasSuffix(cn, "SetMapValueAt") || strings.HasSuffix(cn, "SetObjectValueByField")) || recv == nil {
 				continue
 			}
+			memberSink := strings.HasSuffix(cn, "SetObjectValueByField")
 			parentF := p.Field("ast", "Variable", "Variable")
 			q2 := &AQuery{Fn: fn, From: ci.(ssa.Instruction), Designated: des, Assume: AssumeNil,
 				IsTarget: func(in ssa.Instruction, st *AState) bool {
@@ -321,22 +322,34 @@ func ruleINV1(c *Ctx) {
 				},
 				IsBlocker: func(in ssa.Instruction, st *AState) bool {
 					call, ok := in.(ssa.CallInstruction)
-					if !ok || call.Common().StaticCallee() != m.resetVar || len(call.Common().Args) < 2 {
+					if !ok {
 						return false
 					}
-					f, base := fieldLoad(call.Common().Args[1])
-					return f == parentF && base == ssa.Value(recv)
+					// the walk over every container on the written path (covers members of elements, nested
+					// selectors and dot-vs-selector access of map-like nodes as well)
+					if callee := call.Common().StaticCallee(); callee != nil && len(call.Common().Args) >= 1 && unspill(call.Common().Args[0]) == ssa.Value(recv) && c.isAliasResetWalk(callee, m) {
+						return true
+					}
+					return false
 				},
 			}
+			_ = parentF
+			if hdr := c.aliasResetWalkIn(fn, ssa.Value(recv), m); hdr != nil {
+				inner := q2.IsBlocker
+				q2.IsBlocker = func(in ssa.Instruction, st *AState) bool {
+					return inner(in, st) || (in.Block() == hdr && instrIndex(in) == 0)
+				}
+			}
 			r2 := q2.Run()
-			construct2 := construct + " also invalidates the container"
+			construct2 := construct + " also invalidates the containers on the written path"
+			_ = memberSink
 			switch {
 			case r2.Overflow:
 				c.Undecided(construct2, p.InstrPos(ci), "path search exceeded its state budget")
 			case r2.Found != nil:
-				c.Fail(construct2, p.InstrPos(ci), fmt.Sprintf("a successful element write reaches the return at %s having reset only what is indexed under the selector spelling it was written through: a read of the same element through another selector text (F.Arr[0] after F.Arr[F.I] = …, F.M[F.Key] after F.M[\"k\"] = …) keeps its remembered value", p.InstrPos(r2.Found)), pathString(p, r2.Path)...)
+				c.Fail(construct2, p.InstrPos(ci), fmt.Sprintf("a successful write reaches the return at %s having reset only what is indexed under the spelling it was written through, without the walk over the containers of the written path (reset the parent of every selector step and of every member of a map-like node): a read of the same location through another spelling (F.Arr[0] after F.Arr[F.I] = …, F.Arr[F.I].X after F.Arr[0].X = …, F.Grid[F.R][F.C] after F.Grid[1][2] = …, J[\"k\"] after J.k = …) keeps its remembered value", p.InstrPos(r2.Found)), pathString(p, r2.Path)...)
 			default:
-				c.OK(construct2, p.InstrPos(ci), "every success path also resets the container variable (ResetVariable(e.Variable))")
+				c.OK(construct2, p.InstrPos(ci), "every success path also resets the container variable(s) of the written location")
 			}
 		}
 	}
@@ -1964,4 +1977,111 @@ func ruleINV14(c *Ctx) {
 		c.AnchorLost("(*ast.ThenExpression).Execute")
 	}
 	c.Notes = append(c.Notes, fmt.Sprintf("INV-14 stores of Evaluated=false: %d", n))
+}
+
+// isAliasResetWalk: fn(v0 *Variable, memory) walks v = v0, v.Variable, ... while v.Variable != nil and calls
+// memory.ResetVariable(v.Variable) at least whenever v.ArrayMapSelector != nil and whenever v.Variable.ValueNode.IsMap().
+func (c *Ctx) isAliasResetWalk(fn *ssa.Function, m *memoAnchors) bool {
+	if fn == nil || fn.Blocks == nil || len(fn.Params) < 2 {
+		return false
+	}
+	return c.aliasResetWalkIn(fn, ssa.Value(fn.Params[0]), m) != nil
+}
+
+// aliasResetWalkIn returns the header of a loop in fn that performs the walk starting at v0 (nil if there is none).
+func (c *Ctx) aliasResetWalkIn(fn *ssa.Function, v0 ssa.Value, m *memoAnchors) *ssa.BasicBlock {
+	p := c.P
+	parentF := p.Field("ast", "Variable", "Variable")
+	selF := p.Field("ast", "Variable", "ArrayMapSelector")
+	vnF := p.Field("ast", "Variable", "ValueNode")
+	for _, l := range naturalLoops(fn) {
+		// the walking variable: a header phi with edges {v0, phi.Variable}
+		var phi *ssa.Phi
+		for _, in := range l.Header.Instrs {
+			ph, ok := in.(*ssa.Phi)
+			if !ok {
+				continue
+			}
+			hasInit, hasStep := false, false
+			for _, e := range ph.Edges {
+				if e == v0 {
+					hasInit = true
+				}
+				if f, base := fieldLoad(e); f == parentF && base == ssa.Value(ph) {
+					hasStep = true
+				}
+			}
+			if hasInit && hasStep {
+				phi = ph
+			}
+		}
+		if phi == nil {
+			continue
+		}
+		isParentOfV := func(x ssa.Value) bool {
+			f, base := fieldLoad(x)
+			return f == parentF && base == ssa.Value(phi)
+		}
+		// the reset call on v.Variable
+		resetBlocks := map[*ssa.BasicBlock]bool{}
+		for b := range l.Blocks {
+			for _, in := range b.Instrs {
+				if call, ok := in.(ssa.CallInstruction); ok && call.Common().StaticCallee() == m.resetVar && len(call.Common().Args) >= 2 && isParentOfV(call.Common().Args[1]) {
+					resetBlocks[b] = true
+				}
+			}
+		}
+		if len(resetBlocks) == 0 {
+			continue
+		}
+		leadsToReset := func(b *ssa.BasicBlock) bool {
+			for i := 0; i < 4 && !resetBlocks[b]; i++ {
+				if _, isJump := b.Instrs[len(b.Instrs)-1].(*ssa.Jump); !isJump || len(b.Succs) != 1 {
+					break
+				}
+				b = b.Succs[0]
+			}
+			return resetBlocks[b]
+		}
+		bySelector, byMap := false, false
+		for b := range l.Blocks {
+			iff, isIf := b.Instrs[len(b.Instrs)-1].(*ssa.If)
+			if !isIf {
+				continue
+			}
+			if kind, sNil, ok := condOn(iff.Cond, func(x ssa.Value) bool {
+				f, base := fieldLoad(x)
+				return f == selF && base == ssa.Value(phi)
+			}); ok && kind == "nil" && leadsToReset(b.Succs[1-sNil]) {
+				bySelector = true
+			}
+			if kind, sTrue, ok := condOn(iff.Cond, func(x ssa.Value) bool {
+				call, isCall := x.(*ssa.Call)
+				if !isCall || !call.Call.IsInvoke() || call.Call.Method.Name() != "IsMap" {
+					return false
+				}
+				f, base := fieldLoad(call.Call.Value)
+				return f == vnF && isParentOfV(base)
+			}); ok && kind == "bool" && leadsToReset(b.Succs[sTrue]) {
+				byMap = true
+			}
+		}
+		// the walk ends only when there is no parent left
+		exitsOK := true
+		for _, ex := range l.Exits() {
+			eb := ex[0].(*ssa.BasicBlock)
+			iff, isIf := eb.Instrs[len(eb.Instrs)-1].(*ssa.If)
+			if !isIf {
+				exitsOK = false
+				continue
+			}
+			if _, _, ok := condOn(iff.Cond, isParentOfV); !ok {
+				exitsOK = false
+			}
+		}
+		if bySelector && byMap && exitsOK {
+			return l.Header
+		}
+	}
+	return nil
 }
